@@ -36,7 +36,7 @@ VARIABLES
 
 vars == <<l, tT, honest, gp, blocks, gst, gstore, owed, failH, wide, cands, hand, viol, drift>>
 
-EmptyPool == [h |-> 1, req |-> << >>, peers |-> << >>, maxH |-> 0]
+EmptyPool == [h |-> 1, req |-> << >>, peers |-> << >>, maxH |-> 0, np |-> 0]
 Init ==
   /\ l = 1 /\ tT = 0 /\ honest = {} /\ gp = EmptyPool /\ blocks = << >>
   /\ gst = [h |-> 0, lastID |-> NoBID] /\ gstore = << >> /\ owed = {} /\ failH = {} /\ wide = {} /\ cands = {}
@@ -59,16 +59,36 @@ PoolOfLog(lp, tbl) ==
       pr(p) == CHOOSE i \in 1..Len(lp.peers) : lp.peers[i].p = p
       hs == {lp.req[i].h : i \in 1..Len(lp.req)}
       rq(h) == lp.req[CHOOSE i \in 1..Len(lp.req) : lp.req[i].h = h]
-  IN [h |-> lp.h, maxH |-> lp.maxH,
-      peers |-> [p \in ps |-> [base |-> lp.peers[pr(p)].base, height |-> lp.peers[pr(p)].height, to |-> lp.peers[pr(p)].to]],
-      \* a requester still naming a peer that is no longer in pool.peers has been told to
-      \* redo and is about to reset (bpRequester.redo -> requestRoutine -> reset)
-      req |-> [h \in hs |->
-                 IF rq(h).peer = Nil \/ rq(h).peer \notin ps \/ rq(h).redo THEN ReqEmpty
+      \* a requester still naming a peer that is no longer in pool.peers, or with a redo queued, has
+      \* been told to redo and is about to reset (bpRequester.redo -> requestRoutine -> reset)
+      gone(h) == rq(h).peer = Nil \/ rq(h).peer \notin ps \/ rq(h).redo
+      req == [h \in hs |->
+                 IF gone(h) THEN ReqEmpty
                  ELSE [peer |-> rq(h).peer,
                        blk |-> IF rq(h).blk = "nil" THEN NilBlk
                                ELSE IF rq(h).blk \in DOMAIN tbl THEN tbl[rq(h).blk]
-                               ELSE Unknown(rq(h).blk, h)]]]
+                               ELSE Unknown(rq(h).blk, h)]]
+  IN [h |-> lp.h, maxH |-> lp.maxH,
+      \* bpPeer.numPending is incremented under the pool's lock when the peer is picked, the requester
+      \* stores the peer id a moment later: the logged per-peer counter may run ahead of the requesters
+      \* that name the peer.  Level 1 compares the requesters; the raw counter is checked in PeerCounterOK.
+      peers |-> [p \in ps |-> [base |-> lp.peers[pr(p)].base, height |-> lp.peers[pr(p)].height, to |-> lp.peers[pr(p)].to,
+                               np |-> Cardinality({h \in hs : req[h].peer = p /\ req[h].blk = NilBlk})]],
+      req |-> req,
+      \* BlockPool.numPending as the code holds it, plus the +1 each pending reset of a requester
+      \* that still shows its block is about to add
+      np |-> lp.np + Cardinality({h \in hs : gone(h) /\ rq(h).blk # "nil"})]
+
+\* per-peer counters re-derived from the requesters (see PoolOfLog)
+NormPeers(pool) ==
+  [pool EXCEPT !.peers = [p \in DOMAIN pool.peers |->
+      [pool.peers[p] EXCEPT !.np = Cardinality({h \in Blockless(pool) : pool.req[h].peer = p})]]]
+
+\* the raw per-peer counter: at least the blockless requesters that name the peer, at most the limit
+PeerCounterOK(lp) ==
+  \A i \in 1..Len(lp.peers) :
+     /\ lp.peers[i].np <= PerPeer
+     /\ lp.peers[i].np >= Cardinality({j \in 1..Len(lp.req) : lp.req[j].peer = lp.peers[i].p /\ lp.req[j].blk = "nil" /\ ~lp.req[j].redo})
 
 \* ------------------------------------------------------------ hidden steps revealed by the projection
 RECURSIVE MakeUpTo(_, _)
@@ -119,7 +139,12 @@ InstallM(e, expected, tbl, st, extraDrift, extraViol, stoppedNow, mid) ==
                  \cup (IF midRefused THEN FailPeers(mid) \cap alive ELSE {})
   IN /\ gp' = lp
      /\ drift' = drift \cup extraDrift
-                 \cup FailIf(lp \notin expected, D("pool after " \o e.ev \o " differs from the spec's"))
+                 \cup FailIf(lp \notin {NormPeers(x) : x \in expected},
+                             D(IF \E x \in expected : [NormPeers(x) EXCEPT !.np = lp.np] = lp
+                               THEN "numPending after " \o e.ev \o " differs from the spec's (counter leak)"
+                               ELSE "pool after " \o e.ev \o " differs from the spec's"))
+                 \cup FailIf(~PendingExact(lp), D("numPending is not the number of requesters without a block"))
+                 \cup FailIf(~PeerCounterOK(e.pool), D("a peer's numPending is below the requests it owes or above the limit"))
      /\ viol' = viol \cup extraViol
      /\ owed' = (owed \ stoppedNow) \cup newOwed
      /\ LET c == [honest |-> (DOMAIN lp.peers \cap honest) # {}, cu |-> IsCaughtUp(lp)] IN
